@@ -26,7 +26,8 @@ RULE = ('case = one fault schedule of CleanWrite (mode x failing step x position
         'the input was removed; distinct = by (mode, entry, fault, position, clean, hex, PEL)')
 ASSUMPTIONS = [
     'output faults are injected at the Python I/O seam (open / write / flush / close of the output object, '
-    'sys.stdout), raising OSError(ENOSPC/EIO) or BrokenPipeError; a real full file system is not available offline',
+    'sys.stdout), raising OSError(ENOSPC/EIO) or BrokenPipeError, a raw (unbuffered) file object gets a partial write '
+    'first; genuine write failures are provoked with RLIMIT_FSIZE in a subprocess (no full file system offline)',
     'for --file the document counts as emitted only once stdout has been flushed successfully',
     'a partial output file may remain after a failure (allowed by the statement)',
 ]
@@ -65,7 +66,10 @@ def cases(tier, seed, info):
         for m in ('json', 'file'):
             for pt_ in CRASH_POINTS[m]:
                 out.append(dict(kind='crash', mode=m, point=pt_, pel=p, data=data))
+        for lim in ('zero', 'one', 'hundred', 'half', 'minus1', 'exact', 'none'):
+            out.append(dict(kind='rlimit', limit=lim, pel=p, data=data))
     info['crash_points'] = sum(len(v) for v in CRASH_POINTS.values())
+    info['rlimit_fsize_runs_per_pel'] = 7
     return out
 
 
@@ -133,6 +137,69 @@ class FaultyFile:
     def __exit__(self, *a):
         self.close()
         return False
+
+
+class RawFaultyFile(FaultyFile):
+    """Stands for a raw, unbuffered file (open(..., buffering=0)): a write that cannot be completed
+    succeeds PARTIALLY and returns the short count (what the kernel does when the device fills up);
+    only the next write fails."""
+
+    def __init__(self, real, path, plan, log):
+        super().__init__(real, path, plan, log)
+        self.short_done = False
+
+    def write(self, b):
+        k = self.nwrites
+        self.nwrites += 1
+        if self.plan.get('write') is not None and k >= self.plan['write']:
+            if not self.short_done:
+                self.short_done = True
+                n = len(b) // 2
+                self.real.write(b[:n])
+                self.log.append('write_short')
+                return n
+            self._fail('write')
+        if k == 0:
+            self.log.append('write_ok')
+        return self.real.write(b)
+
+    def fileno(self):
+        return self.real.fileno()
+
+
+def _rlimit_case(case):
+    """a genuine write failure: the real -j -c path runs in a subprocess whose RLIMIT_FSIZE is below the size of
+    the document (no injected fault at all); Safe is judged on the disk state"""
+    import subprocess
+    from ..framework import REPO
+    base = seams.scratch_dir('c12rl')
+    work = os.path.join(base, 'run')
+    shutil.rmtree(work, ignore_errors=True)
+    os.makedirs(os.path.join(work, 'in'))
+    os.makedirs(os.path.join(work, 'out'))
+    data = bytes(case['data'])
+    in_path = os.path.join(work, 'in', '%08X_x' % (0x50000100 + case['pel']))
+    seams.write_file(in_path, data)
+    expected = _count_writes(data, False)
+    limit = {'zero': 0, 'one': 1, 'hundred': 100, 'half': len(expected) // 2, 'minus1': len(expected) - 1,
+             'exact': len(expected), 'none': -1}[case['limit']]
+    code = ('import resource, sys, os\n'
+            'sys.path.insert(0, %r)\n'
+            'import pel.peltool.peltool as pt\n'
+            'lim = %d\n'
+            'if lim >= 0: resource.setrlimit(resource.RLIMIT_FSIZE, (lim, lim))\n'
+            'sys.argv = ["peltool.py", "-p", %r, "-j", "-o", %r, "-c"]\n'
+            'pt.main()\n') % (os.path.join(REPO, 'modules'), limit, os.path.join(work, 'in'), os.path.join(work, 'out'))
+    p = subprocess.run(['/venv/bin/python', '-c', code], stdout=subprocess.PIPE, stderr=subprocess.PIPE, timeout=60,
+                       env=dict(os.environ, PYTHONDONTWRITEBYTECODE='1', PYTHONWARNINGS='ignore'))
+    present = os.path.exists(in_path)
+    unchanged = present and open(in_path, 'rb').read() == data
+    files = sorted(os.listdir(os.path.join(work, 'out')))
+    complete = len(files) == 1 and open(os.path.join(work, 'out', files[0])).read() == expected
+    shutil.rmtree(work, ignore_errors=True)
+    return [dict(kind='crash', shape_ok=True, mode='json', entry='main', fault='rlimit', err=case['limit'], pos='-',
+                 clean=True, hex=False, pel=case['pel'], events=[], input_present_after=present,
+                 input_unchanged=bool(unchanged), out_complete=bool(complete), uncaught='')]
 
 
 class FaultyStdout(io.TextIOBase):
@@ -218,6 +285,8 @@ def _crash_case(case):
 def run_case(case):
     if case.get('kind') == 'crash':
         return _crash_case(case)
+    if case.get('kind') == 'rlimit':
+        return _rlimit_case(case)
     import pel.peltool.peltool as pt
     from pel.peltool.config import Config
     base = seams.scratch_dir('c12')
@@ -265,7 +334,8 @@ def run_case(case):
             real = real_open(file, mode_, *a, **kw)
             log.append('open_ok')
             opened.append(file)
-            return FaultyFile(real, file, plan, log)
+            raw = (a and a[0] == 0) or kw.get('buffering') == 0
+            return (RawFaultyFile if raw else FaultyFile)(real, file, plan, log)
         return real_open(file, mode_, *a, **kw)
 
     def fake_remove(path, *a, **kw):
